@@ -5,6 +5,8 @@ CONSTANTS
   NilCloseGuarded = TRUE
   GuardTypedNil = FALSE
   CloseOnNilPayload = FALSE
+  PooledBuffer = FALSE
+  MaxSeq = 3
   MaxContent = 2
   MaxChunks = 3
   MaxChunk = 2
